@@ -334,6 +334,9 @@ impl GlobWalker {
                     // components are skipped.
                     .filter_map(|component| match component {
                         Component::Normal(component) => Some(CandidatePath::from(component)),
+                        // Parent directory components in the invariant prefix of a glob are
+                        // nominal (literals) in its component programs.
+                        Component::ParentDir => Some(CandidatePath::from(component.as_os_str())),
                         _ => None,
                     })
                     .skip(depth)
